@@ -43,6 +43,8 @@ CFGCONF = {
     "<leaddigit>": ["1", "2", "3", "4", "5", "6", "7", "8", "9"],
 }
 
+REC = {"<start>": ["<rec>"], "<rec>": ["<hd>;<bs>"], "<hd>": ["<a>", "<a><hd>"], "<a>": ["a"], "<bs>": ["<b>", "<b><bs>"], "<b>": ["b"]}
+
 # documented / typical constraints (core syntax) — (grammar, constraint)
 FIXED: List[Tuple[Dict[str, List[str]], str]] = [
     (ASSGN, 'forall <assgn> assgn_1="{<var> lhs_1} := {<rhs> rhs_1}" in start: (forall <var> var in rhs_1: (exists <assgn> assgn_2="{<var> lhs_2} := {<rhs> rhs_2}" in start: ((before(assgn_2, assgn_1) and (= lhs_2 var)))))'),
@@ -61,6 +63,11 @@ FIXED: List[Tuple[Dict[str, List[str]], str]] = [
     (ASSGN, 'forall <stmt> s in start: (count(s, "<var>", "2") or count(s, "<var>", "3") or count(s, "<var>", "4"))'),
     (NUMS, 'exists <list> l in start: (count(l, "<num>", "2"))'),
     (NUMS, 'exists <num> n in start: (count(n, "<dig>", "3"))'),
+    (REC, 'exists <rec> r in start: (exists <hd> h in r: ((count(h, "<a>", "2") and count(r, "<b>", "3"))))'),
+    (REC, 'forall <rec> r in start: (forall <hd> h in r: ((count(r, "<b>", "2") and count(h, "<a>", "3"))))'),
+    (ASSGN, '(exists <assgn> a in start: (exists <var> v in a: ((= v "c"))) and forall <digit> d in start: ((= d "7")))'),
+    (ASSGN, '(forall <var> v in start: ((= v "a")) and exists <assgn> a in start: (exists <digit> d in a: ((= d "1"))))'),
+    (NUMS, '(exists <num> n in start: ((= n "12")) and forall <dig> d in start: ((not (= d "9"))))'),
     (NUMS, 'forall <num> n in start: ((= (mod 7 (str.to.int n)) 1))'),
     (NUMS, 'exists <num> a in start: (exists <num> b in start: ((= (mod (str.to.int a) (str.to.int b)) 1)))'),
     (ASSGN, 'forall <digit> d in start: ((= (mod 5 (str.to.int d)) 1))'),
@@ -107,6 +114,9 @@ def gen_problem(rng, i: int, grid: bool = True, allow_start_symbol: bool = True)
     settings = gen_settings(rng, grid)
     if r < 0.3:
         g, text = rng.choice(FIXED)
+        if grid and text.startswith("(") and " and " in text and "exists" in text and rng.random() < 0.6:
+            # conjunctions of an existential with another quantifier: the nested unsatisfiability check applies
+            settings = dict(settings, activate_unsat_support=True, max_number_free_instantiations=rng.choice([2, 3, 10]))
         return {"grammar": g, "constraint": text, "settings": settings, "origin": "documented", "start_symbol": None}
     if r < 0.45:
         g, gname = rng.choice([(ASSGN, "assgn"), (NUMS, "nums")])
